@@ -55,6 +55,30 @@ Theorem C17_value_norm_shape : forall v, shape_of (norm v) = shape_of v /\ elem_
   data_len (norm v) = data_len v.
 Proof. intros v. split; [apply norm_shape | split; [apply norm_class | apply norm_len]]. Qed.
 
+(** Top-level metadata (ArrayRep::Full with a label, ArrayRep::Map with keys; the reader's Map and
+    Full attempts under every element type, deny_unknown_fields): a labelled value comes back with
+    its label, a map with its keys (bytes keys as numbers, as MapKeys stores them) ... *)
+Theorem C17_label_json_roundtrip : forall v l, wf_shape v = true -> repr_ok v = true -> (vdepth v <= 12)%nat ->
+  exists j, mto_json true (MV v (Some l) None) = Some j /\ of_json true j = Some (MV (norm v) (Some l) None).
+Proof. exact label_json_roundtrip. Qed.
+Theorem C17_map_json_roundtrip : forall v k, wf_shape v = true -> repr_ok v = true -> map1_free v = true ->
+  wf_shape k = true -> repr_ok k = true -> (vdepth v <= 12)%nat -> (vdepth k <= 11)%nat ->
+  exists j, mto_json true (MV v None (Some k)) = Some j /\
+    of_json true j =
+      Some (MV (norm v) None (if Nat.eqb (rows (shape_of k)) (rows (shape_of v)) then Some (to_num (norm k)) else None)).
+Proof. exact map_json_roundtrip. Qed.
+Theorem C17_meta_json_roundtrip : forall m e j, meta_expect m = Some e -> mto_json true m = Some j ->
+  (match m with MV v _ k => wf_shape v = true /\ repr_ok v = true /\ (vdepth v <= 12)%nat /\
+     match k with Some k => wf_shape k = true /\ repr_ok k = true /\ (vdepth k <= 11)%nat | None => True end end) ->
+  of_json true j = Some e.
+Proof. exact meta_json_roundtrip. Qed.
+(** ... except a box array of shape [1] with map keys (OPEN defect, tree frozen): the program
+    `map [5] ≡□[1]` is written [[1],[5.0],[{"b":1}]] and reads back as a list of three boxes. *)
+Theorem C17_map1_refuted :
+  exists m j m', mto_json true m = Some j /\ of_json true j = Some m' /\ mval_same m' m = false /\
+    m' = MV (VBox [3%nat] [VByte [] [1]; VNum [] [4617315517961601024]; VBox [] [VByte [] [1]]]) None None.
+Proof. exact map1_refuted. Qed.
+
 (** Records of the defects repaired by those commits (model of the representation before them): *)
 Theorem C17_value_json_refuted_string_pre :
   exists v m', of_json false (to_json false v) = Some m' /\ mval_same m' (MV v None None) = false /\
@@ -98,6 +122,10 @@ Print Assumptions C17_framing_refuted_pre.
 Print Assumptions C17_framing_roundtrip_mid.
 Print Assumptions C17_test_asserts_lost_pre.
 Print Assumptions C17_value_json_roundtrip_exact.
+Print Assumptions C17_label_json_roundtrip.
+Print Assumptions C17_map_json_roundtrip.
+Print Assumptions C17_meta_json_roundtrip.
+Print Assumptions C17_map1_refuted.
 Print Assumptions C17_value_json_refuted_string_pre.
 Print Assumptions C17_value_json_refuted_complex_pre.
 Print Assumptions C17_value_json_refuted_nan_pre.
